@@ -84,6 +84,8 @@ def gen_world(rng: random.Random, tier: str) -> dict:
         "data_seed": rng.getrandbits(40),
         "trend": rng.random() < 0.8,
         "int_fs": rng.random() < 0.25,
+        # how the user's arrays lie in memory: C order, Fortran order, or a strided view of a larger buffer
+        "layout": rng.choices(["C", "F", "view"], weights=[0.7, 0.18, 0.12])[0],
     }
     if kind == "preger":
         nref = rng.randint(1, min(nch) - 1) if min(nch) > 1 else 1
@@ -92,17 +94,24 @@ def gen_world(rng: random.Random, tier: str) -> dict:
 
 
 def build_arrays(world):
-    return [
-        datagen.resonator_record(
-            world["data_seed"] + 7919 * i,
-            world["ndat"][i],
-            world["nch"][i],
-            world["fs"],
-            nmodes=2,
-            trend=world["trend"],
-        )
-        for i in range(len(world["ndat"]))
-    ]
+    """Returns (arrays handed to the library, owners whose bytes must never change)."""
+    arrays, owners = [], []
+    for i in range(len(world["ndat"])):
+        a = datagen.resonator_record(world["data_seed"] + 7919 * i, world["ndat"][i], world["nch"][i], world["fs"],
+                                     nmodes=2, trend=world["trend"])
+        lay = world.get("layout", "C")
+        if lay == "F":
+            a = np.asfortranarray(a)
+            owners.append(a)
+        elif lay == "view":
+            big = np.full((a.shape[0] * 2 + 3, a.shape[1] + 2), 7.25)
+            big[1:1 + 2 * a.shape[0]:2, 1:1 + a.shape[1]] = a
+            owners.append(big)
+            a = big[1:1 + 2 * a.shape[0]:2, 1:1 + a.shape[1]]
+        else:
+            owners.append(a)
+        arrays.append(a)
+    return arrays, owners
 
 
 def build_setup(world, arrays):
@@ -321,6 +330,8 @@ def gen_op(rng, m: Model, swarm, nalg):
         kw = {}
         if rng.random() < 0.6:
             kw["type"] = rng.choice(["linear", "constant"])
+        if rng.random() < 0.08:
+            kw["axis"] = 0
         if rng.random() < 0.25 and nmin > 8:
             if rng.random() < 0.08:
                 kw["bp"] = [nmin + rng.randint(1, 50)]  # out of range: scipy raises
@@ -399,8 +410,8 @@ def run_case(seed, tier="quick", case=None, known=()):
         swarm = None
         ops_in = case["ops"]
         nops = len(ops_in)
-    arrays = build_arrays(world)
-    user_hash = [h_array(a) for a in arrays]
+    arrays, owners = build_arrays(world)
+    user_hash = [h_array(a) for a in owners]
     user_list = list(arrays)
     user_ref = copy.deepcopy(world.get("ref_ind"))
     world["_user_list"], world["_user_ref"] = user_list, user_ref
@@ -443,10 +454,16 @@ def run_case(seed, tier="quick", case=None, known=()):
     bound = []  # (name, alg, hash-of-bound-data) for probes
     nalg = 0
     changed = 0
-    for step in range(nops):
+    extended = False
+    step = -1
+    while step + 1 < nops:
+        step += 1
         if stop:
             break
         op = copy.deepcopy(ops_in[step]) if ops_in is not None else gen_op(rng, m, swarm, nalg)
+        if ops_in is None and step == nops - 1 and "fault" in op and not extended:
+            nops += 1  # bounded liveness: one more operation after the last fault must match the model again
+            extended = True
         res["ops"].append(op)
         k = op["op"]
         fault = op.get("fault")
@@ -566,7 +583,7 @@ def run_case(seed, tier="quick", case=None, known=()):
                         violate(o, op, step, d, is_known=True)
         # invariants after every operation
         for i, a in enumerate(arrays):
-            if h_array(a) != user_hash[i] or user_list[i] is not a:
+            if h_array(owners[i]) != user_hash[i] or user_list[i] is not a:
                 stop |= violate("user.mutated", op, step, f"user array {i} changed")
         if user_ref is not None and user_ref != world.get("ref_ind"):
             stop |= violate("user.mutated", op, step, "user reference index list changed")
@@ -648,6 +665,10 @@ def shrink_candidates(case):
     if w.get("int_fs"):
         w2 = copy.deepcopy(w)
         w2["int_fs"] = False
+        yield {"world": w2, "ops": ops}
+    if w.get("layout", "C") != "C":
+        w2 = copy.deepcopy(w)
+        w2["layout"] = "C"
         yield {"world": w2, "ops": ops}
     for i, n in enumerate(w["ndat"]):
         if n > 300:
